@@ -13,6 +13,7 @@ CONSTANTS
   MaxNew = 0
   KwChoices = {{"get", "keys"}, {"get"}}
   LookOps = {"get", "keys"}
+  OffChoices = {{}}
   ReReg = FALSE
   AllOrders = FALSE
   PrintUniverse = FALSE
